@@ -168,4 +168,15 @@ theorem order_restored (g : GridM α) (orig axes : List String) (res out : NDArr
 example : validShift .center .outer = true ∧ (2 : Nat) ≤ 3 ∧
     ([1, 2, 3] : List Int).length = Pos.center.len 3 := by decide
 
+/-- **The predefined stencil operators bind no option of their own**: the only `@as_grid_ufunc` functions of
+    gridops.py that bind `fill_value`, `boundary` or `pad_before_func` at definition time are the four cumsum
+    helpers — so for diff / interp / min / max the boundary rule and fill value in force are exactly those of the
+    call and of the grid (C02), as `step_exact` assumes.  (Regenerated from the decorators on every run: a
+    `fill_value=0` slipped into one decorator would silently shadow the grid's fill value.) -/
+theorem operators_bind_no_options :
+    Gen.gridopsOptions.all (fun e => "cumsum_".toList.isPrefixOf e.1.toList) = true ∧
+    (Gen.gridops.filter (fun e => !"cumsum_".toList.isPrefixOf e.name.toList)).all
+      (fun e => !(Gen.gridopsOptions.map (·.1)).contains e.name) = true := by
+  decide +kernel
+
 end Xgcm.C01
